@@ -63,76 +63,33 @@ func runC20(c *Ctx) {
 		})
 		isSort := func(n ast.Node) bool {
 			cl, ok := n.(*ast.CallExpr)
-			if !ok || len(cl.Args) != 2 || !fieldSel(info, cl.Args[0], "shutdownOrderWorker") {
+			if !ok {
 				return false
 			}
-			k := exprKey(cl.Fun)
-			return strings.HasPrefix(k, "sort.Slice") || k == "slices.SortFunc" || k == "slices.SortStableFunc"
+			sd := recogniseSort(info, cl)
+			return sd != nil && fieldSel(info, sd.Target, "shutdownOrderWorker")
 		}
 		if len(appends) != 1 {
 			r.Fail("order/sorted-descending", key, f.P.posStr(f.Body.Pos()), fmt.Sprintf("expected one append to the shutdown-order list, found %d", len(appends)))
 		} else if w, found := f.PathToExitAvoiding(appends[0], isSort); found {
 			r.Fail("order/sorted-descending", key, f.PosOf(appends[0]), "after appending a worker a path returns without re-sorting the shutdown-order list", w...)
 		} else {
-			// comparator (of the sort call that follows the append, wherever it is written)
-			cmp := ""
+			// comparator (of every sort call of the list, whichever library spelling is used): the
+			// key is the shutdown order of the named worker, the direction descending
+			cmp, okCmp, n := "", true, 0
 			for _, spt := range f.Find(isSort) {
-				var cl *ast.CallExpr
-				inspectNoLit(f.nodeAt(spt), func(n ast.Node) bool {
-					if c, ok := n.(*ast.CallExpr); ok && isSort(c) {
-						cl = c
-					}
-					return true
-				})
-				if cl == nil {
+				sd := sortIn(info, f.nodeAt(spt))
+				if sd == nil {
 					continue
 				}
-				if lit, ok := ast.Unparen(cl.Args[1]).(*ast.FuncLit); ok && len(lit.Body.List) == 1 {
-					var names []string
-					for _, fl := range lit.Type.Params.List {
-						for _, nm := range fl.Names {
-							names = append(names, nm.Name)
-						}
-					}
-					if rs, ok := lit.Body.List[0].(*ast.ReturnStmt); ok && len(rs.Results) == 1 && len(names) == 2 {
-						// slices.SortFunc(list, func(a, b string) int { return cmp.Compare(order(b), order(a)) }):
-						// a three-way comparison with the operands swapped sorts descending
-						res, neg := ast.Unparen(rs.Results[0]), false
-						if u, isNeg := res.(*ast.UnaryExpr); isNeg && u.Op == token.SUB {
-							res, neg = ast.Unparen(u.X), true
-						}
-						if cc, isCall := res.(*ast.CallExpr); isCall && rawKey(cc.Fun) == "cmp.Compare" && len(cc.Args) == 2 && !strings.HasPrefix(exprKey(cl.Fun), "sort.") {
-							mention := func(e ast.Expr, name string) bool {
-								hit := false
-								ast.Inspect(e, func(m ast.Node) bool {
-									if id, ok := m.(*ast.Ident); ok && id.Name == name {
-										hit = true
-									}
-									return !hit
-								})
-								return hit
-							}
-							l, rr := cc.Args[0], cc.Args[1]
-							if neg {
-								l, rr = rr, l
-							}
-							keyOK := strings.HasSuffix(exprKey(l), ".shutdownOrder") && strings.HasSuffix(exprKey(rr), ".shutdownOrder")
-							if keyOK && mention(l, names[1]) && !mention(l, names[0]) && mention(rr, names[0]) && !mention(rr, names[1]) {
-								cmp = "[j]].shutdownOrder < [i]].shutdownOrder" // descending
-							} else {
-								cmp = "cmp.Compare(" + exprKey(cc.Args[0]) + "," + exprKey(cc.Args[1]) + ")"
-							}
-						} else if rel, ok := relOf(rs.Results[0]); ok {
-							// rename the index parameters to i, j
-							ren := strings.NewReplacer("["+names[0]+"]", "[i]", "["+names[1]+"]", "[j]")
-							cmp = Rel{ren.Replace(rel.L), rel.Op, ren.Replace(rel.R)}.String()
-						}
-					}
+				n++
+				cmp = fmt.Sprintf("key %s kind %s descending=%v understood=%v", sd.Key, sd.Kind, sd.Desc, sd.OK)
+				if !sd.OK || sd.Kind != "ord" || !sd.Desc || !strings.HasSuffix(sd.Key, "[@].shutdownOrder") {
+					okCmp = false
 				}
 			}
-			// descending: less(i,j) = order[i] > order[j]  <=>  order[j] < order[i]
-			if strings.Contains(cmp, "[j]].shutdownOrder < ") && strings.HasSuffix(cmp, "[i]].shutdownOrder") {
-				r.Pass("order/sorted-descending", key, f.PosOf(appends[0]), "append is followed by sort.Slice with less(i,j) = order[i] > order[j]")
+			if okCmp && n > 0 {
+				r.Pass("order/sorted-descending", key, f.PosOf(appends[0]), "append is followed by a sort of the list by descending shutdown order")
 			} else {
 				r.Fail("order/sorted-descending", key, f.PosOf(appends[0]), "the shutdown-order list must be sorted by descending shutdown order; comparator is "+cmp)
 			}
@@ -628,7 +585,11 @@ func checkOrderPreservingWrites(r *Reporter, p *Prog, pkg string, info *types.In
 	}
 	isSort := func(n ast.Node) bool {
 		cl, ok := n.(*ast.CallExpr)
-		return ok && strings.HasPrefix(exprKey(cl.Fun), "sort.") && len(cl.Args) >= 1 && fieldSel(info, cl.Args[0], field)
+		if !ok {
+			return false
+		}
+		sd := recogniseSort(info, cl)
+		return sd != nil && fieldSel(info, sd.Target, field)
 	}
 	nShift := 0
 	for _, fd := range p.Methods(pkg, "OrderedDaemon") {
